@@ -400,7 +400,9 @@ def _variants():
     out.append(dict(base, flatten=True, masking=True, scan=False, traffic=True, access=True, wildcards=["0.0.0.1"], router_ports=[1, 2],
                     host_overrides={"web_server": {"services_requires_scan": True, "applications_requires_scan": True}}))
     out.append(dict(base, topo="firewall", masking=True, traffic=True, wildcards=["0.0.0.1", "0.0.0.255", "0.0.255.255"],
-                    host_overrides={"client_1": {"applications_requires_scan": False}}))
+                    host_overrides={"client_1": {"applications_requires_scan": False},
+                                    # an empty traffic mapping on one host while its siblings monitor ports
+                                    "client_2": {"monitored_traffic": {}}}))
     out.append(dict(base, topo="firewall", flatten=True, scan=False, nmne=False, access=True, dur=2))
     # NMNE included in the observation although the scenario does not capture it
     out.append(dict(base, masking=True, nmne=True, capture=False, dur=2, bandwidth=0.01, dup_lists=True))
